@@ -439,13 +439,21 @@ fn run_shard(ctx: &mut Ctx) {
         let mut runner = seeded_runner(ctx.sub_seed("prog", i));
         let data = choice_stream(500).new_tree(&mut runner).unwrap().current();
         let (src, class): (String, &'static str) = match i % 5 {
+            // only programs that the reference interpreter judges (the others include exponential
+            // container growth, which ends in an allocation failure on both sides)
             0 | 1 => {
                 let (prog, _) = c01::build(&data);
+                if c01::expectation(&prog).is_err() {
+                    continue;
+                }
                 (c01::variant_source(&prog, "plain"), "core-program")
             }
             2 => {
                 let mut g = G::new(&data, Cfg::default());
                 let prog = g.fn_program();
+                if c01::expectation(&prog).is_err() {
+                    continue;
+                }
                 (c01::variant_source(&prog, "plain"), "function-program")
             }
             3 => match c14::history_source(&data) {
